@@ -126,7 +126,7 @@ theorem hostInv_connEnd {c : Cfg} {sc : Script} {now wake : Nat} {h : Host} (hi 
     have hint : h.intr = false := by simpa using hint
     split
     · -- ok
-      let h1 : Host := { h with conn := now, ph := .reading }
+      let h1 : Host := { h with conn := now, ph := .reading, death := sc.life.map (now + ·) }
       have hf := pollRound_frame now h1
       have hp := pollRound_ph now h1
       refine ⟨?_, ?_⟩
@@ -228,6 +228,21 @@ theorem hostInv_wake {c : Cfg} {sc : Script} {now wake : Nat} {h : Host} (hi : H
   rcases h5 with h5 | h5
   · rw [h5]; exact h2
   · exact Or.inr h5
+
+/-- `rcmd_destroy` returns: the phase is `finished`, so no signal is pending (the watchdog only hits targets that
+    are connecting or reading) and the EINTR branch is dead: the command is reaped -/
+theorem hostInv_destEnd {c : Cfg} {sc : Script} {now wake : Nat} {h : Host} (hi : HostInv c now wake h)
+    (hph : h.ph = .finished) :
+    HostInv c now wake (hostStep c sc now h .destEnd) ∧ (hostStep c sc now h .destEnd).ph = .finished ∧
+    (hostStep c sc now h .destEnd).reaped = true ∧ (hostStep c sc now h .destEnd).death = h.death := by
+  have hint : h.intr = false := by
+    cases hh : h.intr with
+    | false => rfl
+    | true => have := hi.intrPh hh; rw [hph] at this; simp at this
+  simp only [hostStep, hint]
+  refine ⟨?_, by simp [hph], by simp, by simp⟩
+  constructor <;> simp [hph]
+  · exact hi.resRep
 
 theorem killed_cases {c : Cfg} {now : Nat} {h : Host} (hk : killed c now h = true) :
     (h.ph = .connecting ∧ 0 < c.ct ∧ h.start + c.ct < now) ∨ (h.ph = .reading ∧ 0 < c.ut ∧ h.conn + c.ut < now) := by
